@@ -13,7 +13,7 @@ def op(o):
     if k in('copy','move'): return ('move ' if k=='move' else '')+pl(o['pl'])
     if k=='const':
         if 'fn' in o: return 'fn:'+strip_generics(o['fn'])+(('=>'+strip_generics(o['res'])) if o.get('res') else '')
-        return 'const '+str(o.get('v'))+((' [='+o['ev']+']') if o.get('ev') else '')
+        return 'const '+(('static '+o['static']) if o.get('static') else str(o.get('v')))+((' [='+o['ev']+']') if o.get('ev') else '')
     return str(o)
 def rv(r):
     k=r['k']
